@@ -81,10 +81,16 @@ func (m *Match) MarshalBinary() (data []byte, err error) {
 
 func (m *Match) UnmarshalBinary(data []byte) error {
 	n := 0
+	if len(data) < 4 {
+		return errors.New("the []byte is too short to unmarshal a Match header")
+	}
 	m.Type = binary.BigEndian.Uint16(data[n:])
 	n += 2
 	m.Length = binary.BigEndian.Uint16(data[n:])
 	n += 2
+	if int(m.Length) > len(data) {
+		return errors.New("the match length exceeds the []byte")
+	}
 
 	for n < int(m.Length) {
 		field := new(MatchField)
@@ -93,6 +99,10 @@ func (m *Match) UnmarshalBinary(data []byte) error {
 		}
 		m.Fields = append(m.Fields, *field)
 		n += int(field.Len())
+	}
+	// the match is padded to a multiple of 8 bytes on the wire
+	if (n+7)/8*8 > len(data) {
+		return errors.New("the padded match exceeds the []byte")
 	}
 	return nil
 }
@@ -149,6 +159,9 @@ func (m *MatchField) MarshalBinary() (data []byte, err error) {
 func (m *MatchField) UnmarshalBinary(data []byte) error {
 	var n uint16
 	var err error
+	if len(data) < 4 {
+		return errors.New("the []byte is too short to unmarshal a MatchField header")
+	}
 	m.Class = binary.BigEndian.Uint16(data[n:])
 	n += 2
 
@@ -165,6 +178,9 @@ func (m *MatchField) UnmarshalBinary(data []byte) error {
 	n += 1
 
 	if m.Class == OXM_CLASS_EXPERIMENTER {
+		if len(data) < 8 {
+			return errors.New("the []byte is too short to unmarshal an experimenter MatchField header")
+		}
 		experimenterID := binary.BigEndian.Uint32(data[n:])
 		if experimenterID == ONF_EXPERIMENTER_ID {
 			n += 4
@@ -316,6 +332,9 @@ func DecodeMatchField(class uint16, field uint8, length uint8, hasMask bool, dat
 			return nil, fmt.Errorf("Bad pkt class: %v field: %v data: %v", class, field, data)
 		}
 
+		if val == nil {
+			return nil, fmt.Errorf("unsupported match field: %d in class: %d", field, class)
+		}
 		err := val.UnmarshalBinary(data)
 		if err != nil {
 			return nil, err
@@ -462,6 +481,9 @@ func DecodeMatchField(class uint16, field uint8, length uint8, hasMask bool, dat
 			return nil, fmt.Errorf("Bad pkt class: %v field: %v data: %v", class, field, data)
 		}
 
+		if val == nil {
+			return nil, fmt.Errorf("unsupported match field: %d in class: %d", field, class)
+		}
 		err := val.UnmarshalBinary(data)
 		if err != nil {
 			return nil, err
@@ -475,16 +497,16 @@ func DecodeMatchField(class uint16, field uint8, length uint8, hasMask bool, dat
 		case OXM_FIELD_ACTSET_OUTPUT:
 			val = new(ActsetOutputField)
 		}
+		if val == nil {
+			return nil, fmt.Errorf("unsupported match field: %d in class: %d", field, class)
+		}
 		err := val.UnmarshalBinary(data)
 		if err != nil {
 			return nil, err
 		}
 		return val, nil
-	} else {
-		log.Panicf("Unsupported match field: %d in class: %d", field, class)
 	}
-
-	return nil, nil
+	return nil, fmt.Errorf("unsupported match field: %d in class: %d", field, class)
 }
 
 // ofp_match_type 1.3
